@@ -1,2 +1,233 @@
--- C03 property theorems (in progress)
-import Nq.Daemon
+/-
+  C03 — No accepted recipient is ever dropped: delivered or bounced.
+
+  Model: `Nq.Daemon` — the monitor of qmail-send + qmail-clean's observable protocol (every
+  filesystem-mutating call, every delivery command, every byte of every spawner report, bounce
+  injections, crashes, restarts).  Tie: every trace of the real programs under qsim
+  (`harness/qsend.c`: scripted spawners, K/Z/D/mangled/out-of-range/oversized reports in any order,
+  TERM/ALRM/HUP, failing calls, process and machine crashes with restart) is abstracted to `Ev` and
+  accepted by `Daemon.accept` (`drv_c03`).
+
+  The theorems hold for **every event sequence the monitor accepts** — any number of messages and
+  recipients, any report bytes, any interleaving of arrivals, any number of crashes and restarts.
+-/
+import Nq.Lemmas.DaemonMain
+
+namespace Nq.Props.C03
+open Nq Nq.Daemon Nq.Lemmas.DI
+
+/-- reachable from the empty queue -/
+def Reach (cfg : Cfg) (s : St) : Prop := ∃ evs, acceptAll cfg {} evs = some s
+
+theorem reach_inv (cfg : Cfg) (s : St) (h : Reach cfg s) : Inv cfg s := by
+  obtain ⟨evs, h⟩ := h
+  have key : ∀ (evs : List Ev) (s0 s1 : St), Inv cfg s0 → acceptAll cfg s0 evs = some s1 → Inv cfg s1 := by
+    intro evs
+    induction evs with
+    | nil => intro s0 s1 h0 ha; simp [acceptAll] at ha; subst ha; exact h0
+    | cons e es ih =>
+      intro s0 s1 h0 ha
+      simp only [acceptAll] at ha
+      cases h1 : accept cfg s0 e with
+      | none => simp [h1] at ha
+      | some s2 => simp [h1] at ha; exact ih s2 s1 (step_inv cfg s0 s2 e h0 h1) ha
+  exact key evs {} s (inv_init cfg) h
+
+/-- what has become of record `i` of channel `c` of message `m` -/
+def Fate (ms : MsgSt) (c : Ch) (i : Nat) : Prop :=
+  -- still queued: an unmarked record of an existing channel file, the message still has its info file
+  (∃ rs, ms.chan c = some rs ∧ i < rs.length ∧ (rs.getD i ⟨false, []⟩).done = false ∧ addrs rs = MsgSt.placed ms c ∧ ms.info.isSome = true)
+  -- reported delivered (K) by the delivery agent
+  ∨ (c, i) ∈ ms.delivered
+  -- named in bounce/<m>, which still exists together with info/<m>: the bounce is still to be sent
+  ∨ ((c, i) ∈ ms.inFile ∧ ms.bounce.isSome = true ∧ ms.info.isSome = true)
+  -- named in a bounce that was successfully queued to the envelope sender
+  ∨ (c, i) ∈ ms.bounced
+  -- the two documented exceptions: a failing double bounce is discarded; the bounce record is not crash-proof
+  ∨ ms.discarded = true ∨ ms.lost = true
+
+theorem fate_of_fin (cfg : Cfg) (ms : MsgSt) (h : MInv cfg ms) (ht : ms.todo = none) (c : Ch) (i : Nat) (hf : (c, i) ∈ ms.fin) :
+    Fate ms c i := by
+  rcases h.k3 _ hf with hd | hn
+  · exact Or.inr (Or.inl hd)
+  · rcases h.k4 _ hn with h1 | h1 | h1 | h1
+    · have hb : ms.bounce ≠ none := fun hb => by have := h.k5 hb; rw [this] at h1; simp at h1
+      have hbs : ms.bounce.isSome = true := by
+        cases hbb : ms.bounce with
+        | none => exact absurd hbb hb
+        | some _ => rfl
+      exact Or.inr (Or.inr (Or.inl ⟨h1, hbs, h.k6 ht (Or.inr (Or.inr hbs))⟩))
+    · exact Or.inr (Or.inr (Or.inr (Or.inl h1)))
+    · exact Or.inr (Or.inr (Or.inr (Or.inr (Or.inl h1))))
+    · exact Or.inr (Or.inr (Or.inr (Or.inr (Or.inr h1))))
+
+/-- **Every accepted recipient is accounted for, in every reachable state** (any history of
+reports, signals, failing calls, crashes and restarts): while `todo/<m>` exists it holds exactly the
+accepted envelope; afterwards the accepted recipients are exactly the records placed in the channel
+files (routed by `rewrite()`, in order), and every one of them is still queued, or was reported
+delivered, or is named in a bounce that is pending or was queued — or falls under one of the two
+documented exemptions. -/
+theorem C03_accounted (cfg : Cfg) (s : St) (hr : Reach cfg s) (m : Nat) (sender : Bytes) (rcpts : List Bytes)
+    (ha : (s.msg m).accepted = some (sender, rcpts)) :
+    (s.msg m).todo = some (sender, rcpts) ∨
+    ((s.msg m).todo = none ∧ routedOk cfg rcpts (s.msg m).placedLoc (s.msg m).placedRem = true ∧
+      ∀ c i, i < (MsgSt.placed (s.msg m) c).length → Fate (s.msg m) c i) := by
+  have hm := (reach_inv cfg s hr).msgs m
+  cases ht : (s.msg m).todo with
+  | some env =>
+    left
+    have := hm.a1 env ht
+    rw [ha] at this; cases this; rfl
+  | none =>
+    right
+    refine ⟨rfl, hm.a2 ht sender rcpts ha, ?_⟩
+    intro c i hi
+    cases hc : (s.msg m).chan c with
+    | none => exact fate_of_fin cfg _ hm ht c i (hm.k7 ht c hc i hi)
+    | some rs =>
+      have hk1 := hm.k1 ht c rs hc
+      have hlen : rs.length = (MsgSt.placed (s.msg m) c).length := by rw [← hk1]; simp [addrs]
+      have hi' : i < rs.length := by omega
+      cases hd : (rs.getD i ⟨false, []⟩).done with
+      | true => exact fate_of_fin cfg _ hm ht c i (hm.k2 ht c rs i hc hd hi')
+      | false =>
+        left
+        refine ⟨rs, hc, hi', hd, hk1, hm.k6 ht ?_⟩
+        cases c
+        · left; simpa [MsgSt.chan] using congrArg Option.isSome hc
+        · right; left; simpa [MsgSt.chan] using congrArg Option.isSome hc
+
+/-- **A message leaves the queue only when everyone is accounted for**: once `info/<m>` is gone
+(after which qmail-clean removes the message file) every recipient was reported delivered or named in
+a successfully queued bounce (or the documented exemptions apply). -/
+theorem C03_finished (cfg : Cfg) (s : St) (hr : Reach cfg s) (m : Nat) (sender : Bytes) (rcpts : List Bytes)
+    (ha : (s.msg m).accepted = some (sender, rcpts)) (ht : (s.msg m).todo = none) (hi : (s.msg m).info = none) :
+    ∀ c i, i < (MsgSt.placed (s.msg m) c).length →
+      (c, i) ∈ (s.msg m).delivered ∨ (c, i) ∈ (s.msg m).bounced ∨ (s.msg m).discarded = true ∨ (s.msg m).lost = true := by
+  intro c i hlt
+  rcases C03_accounted cfg s hr m sender rcpts ha with h | ⟨_, _, h⟩
+  · rw [ht] at h; cases h
+  · rcases h c i hlt with ⟨_, _, _, _, _, h1⟩ | h1 | ⟨_, _, h1⟩ | h1 | h1 | h1
+    · rw [hi] at h1; simp at h1
+    · exact Or.inl h1
+    · rw [hi] at h1; simp at h1
+    · exact Or.inr (Or.inl h1)
+    · exact Or.inr (Or.inr (Or.inl h1))
+    · exact Or.inr (Or.inr (Or.inr h1))
+
+/-- **A completion mark is written only for a finished recipient**: whenever qmail-send writes the
+`D` byte of a record, that delivery was reported `K`, or reported `D` (or `Z` past the queue lifetime)
+*and its bounce paragraph has been appended*. -/
+theorem C03_flip (cfg : Cfg) (s s' : St) (hr : Reach cfg s) (m : Nat) (c : Ch) (pos : Nat)
+    (h : accept cfg s (.markD m c pos) = some s') :
+    ∃ rs idx, (s.msg m).chan c = some rs ∧ recIndex rs pos = some idx ∧
+      ((c, idx) ∈ (s.msg m).delivered ∨ (c, idx) ∈ (s.msg m).noted) := by
+  have hinv := reach_inv cfg s hr
+  simp only [accept] at h
+  split at h
+  · cases h
+  · split at h
+    · cases h
+    · rename_i rs hch
+      split at h
+      · cases h
+      · rename_i idx hidx
+        split at h
+        · rename_i hmm
+          exact ⟨rs, idx, hch, hidx, (hinv.msgs m).k3 _ (hinv.may m c idx (by simpa using hmm))⟩
+        · cases h
+
+/-- **Only a `K` finishes a recipient at report time**: a report with any other letter — `Z`,
+mangled, or for an out-of-range or unused delivery number — changes no message state and grants no
+permission to mark (a `D` merely schedules the bounce paragraph that must precede the mark). -/
+theorem C03_report_other (cfg : Cfg) (s : St) (c : Ch) (rep : Bytes) (h : rep.getD 1 0 ≠ 75) :
+    (handleReport cfg s c rep).tab = s.tab ∧ (handleReport cfg s c rep).mayMark = s.mayMark := by
+  simp only [handleReport]
+  split
+  · exact ⟨rfl, rfl⟩
+  · split
+    · exact ⟨rfl, rfl⟩
+    · repeat' split
+      all_goals first
+        | exact ⟨rfl, rfl⟩
+        | (rename_i h'; exact absurd h' h)
+
+/-- **A channel file is unlinked only when everything in it is finished** (outside preprocessing):
+each of its records was reported delivered or has its bounce paragraph. -/
+theorem C03_unlink (cfg : Cfg) (s s' : St) (hr : Reach cfg s) (m : Nat) (c : Ch)
+    (h : accept cfg s (.unlinkChan m c) = some s') (ht : (s.msg m).todo = none) :
+    ∃ rs, (s.msg m).chan c = some rs ∧ ∀ i, i < rs.length →
+      ((c, i) ∈ (s.msg m).delivered ∨ (c, i) ∈ (s.msg m).noted) := by
+  have hinv := reach_inv cfg s hr
+  simp only [accept] at h
+  split at h
+  · cases h
+  · split at h
+    · cases h
+    · rename_i rs hch
+      split at h
+      · rename_i hts; rw [ht] at hts; simp at hts
+      · split at h
+        · rename_i hg
+          refine ⟨rs, hch, fun i hi => ?_⟩
+          have := (List.all_eq_true.1 hg.2) i (List.mem_range.2 hi)
+          simp only [Bool.or_eq_true] at this
+          rcases this with hd | hf
+          · exact (hinv.msgs m).k3 _ ((hinv.msgs m).k2 ht c rs i hch hd hi)
+          · exact (hinv.msgs m).k3 _ (by simpa using hf)
+        · cases h
+
+/-- **`info/<m>` is removed last** (outside preprocessing): only when both channel files and the
+bounce record are gone. -/
+theorem C03_info_last (cfg : Cfg) (s s' : St) (m : Nat) (h : accept cfg s (.unlinkInfo m) = some s')
+    (ht : (s.msg m).todo = none) :
+    (s.msg m).loc = none ∧ (s.msg m).rem = none ∧ (s.msg m).bounce = none := by
+  simp only [accept] at h
+  split at h
+  · cases h
+  · split at h
+    · rename_i hts; rw [ht] at hts; simp at hts
+    · split at h
+      · rename_i hg
+        exact ⟨by simpa using hg.1, by simpa using hg.2.1, by simpa using hg.2.2⟩
+      · cases h
+
+/-- **The bounce record is removed only after its bounce was queued** (or, for a message whose
+sender is `#@[]`, discarded — the documented end of the chain). -/
+theorem C03_bounce_removed (cfg : Cfg) (s s' : St) (m : Nat) (h : accept cfg s (.unlinkBounce m) = some s') :
+    (s.msg m).lastInject = true ∨ ∃ info, (s.msg m).info = some info ∧ (info.drop 1).dropLast = [35, 64, 91, 93] := by
+  simp only [accept] at h
+  split at h
+  · cases h
+  · split at h
+    · rename_i info _ hinfo _
+      split at h
+      · split at h
+        · rename_i hs; exact Or.inr ⟨info, hinfo, hs⟩
+        · split at h
+          · rename_i hl; exact Or.inl hl
+          · cases h
+      · cases h
+    · cases h
+
+/-! ### Non-vacuity: a concrete accepted history (one message, one local recipient `a`, reported
+`D`, bounce paragraph appended, record marked, file unlinked, bounce queued, message removed) -/
+
+def cfg0 : Cfg := { conc := fun _ => 2, lifetime := 1000, route := fun a => (.loc, a), doublebounceto := [112] }
+
+example : (acceptAll cfg0 {}
+    [.newmsg 7 [115] [[97]], .creatInfo 7, .writeInfo 7 [70, 115, 0], .creatChan 7 .loc, .writeChan 7 .loc [84, 97, 0],
+     .fsyncInfo 7, .fsyncChan 7 .loc, .cleanReq [116, 111, 100, 111, 47, 55, 0], .cUnlinkIntd 7, .cUnlinkTodo 7, .cleanResp 43,
+     .cmd .loc 0 7 0 [97], .rbytes .loc [0, 68, 120, 10, 0], .appendBounce 7 [60, 97, 62, 58, 10, 120, 10, 10], .markD 7 .loc 0,
+     .unlinkChan 7 .loc, .bounceInject 7 true [70, 0, 84, 115, 0] [60, 97, 62, 58, 10, 120, 10, 10], .unlinkBounce 7,
+     .unlinkInfo 7, .cleanReq [102, 111, 111, 112, 47, 55, 0], .cUnlinkIntd 7, .cUnlinkMess 7, .cleanResp 43]).isSome = true := by
+  decide
+
+/-- marking without the bounce paragraph is not accepted -/
+example : acceptAll cfg0 {}
+    [.newmsg 7 [115] [[97]], .creatInfo 7, .writeInfo 7 [70, 115, 0], .creatChan 7 .loc, .writeChan 7 .loc [84, 97, 0],
+     .fsyncInfo 7, .fsyncChan 7 .loc, .cleanReq [116, 111, 100, 111, 47, 55, 0], .cUnlinkIntd 7, .cUnlinkTodo 7, .cleanResp 43,
+     .cmd .loc 0 7 0 [97], .rbytes .loc [0, 68, 120, 10, 0], .markD 7 .loc 0] = none := by
+  decide
+
+end Nq.Props.C03
